@@ -85,6 +85,8 @@ func (u *fetchUnit) coFetch(cycle int, app risc.Application, ctx *risc.Context) 
 
 func (u *fetchUnit) reset(pc int32, cleanPending bool) {
 	u.coroutine = nil
+	// The unit has an instruction to fetch again (as in MVP-5)
+	u.complete = false
 	u.pc = pc
 	u.toCleanPending = cleanPending
 }
